@@ -14,7 +14,9 @@ open Py
 /-- The facts about `/repo` the theorems rest on, re-checked against the extracted tables:
 `isValidArgument` rejects exactly CR, LF, NUL; `MAX_LINE_SIZE = 512`; `_truncateMsg` measures and
 cuts UTF-8 *bytes* and keeps 2 for CR LF; every construction of an `IrcMsg` from a raw string or
-through `msg=` is one of the accounted-for sites; the tag-value escape table removes CR and LF. -/
+through `msg=` is one of the accounted-for sites; the tag-value escape table removes CR and LF;
+`_truncateMsg` and the driver encode with the same error handler; `takeMsg` does not reset the
+serialisation after the cut; only known CR/LF/NUL-preserving filters can be installed as outFilter. -/
 theorem out_tables_ok : TablesOk := by decide
 
 /-- **One line per constructed message**: a message accepted by the keyword constructor, with a
